@@ -69,6 +69,10 @@ def first_two(rk):
     return out
 
 
+def declared_names(elements):
+    return {k[1] for k in elements}
+
+
 def model(unified_keys):
     elements = [k for k in unified_keys if k[0] in ELEMENT_TYPES]
     declared = {k[1] for k in elements}
@@ -156,6 +160,11 @@ def judge(ctx, idx, case):
             kinds = {k for _w, k in inferred[u] if k}
             if kinds and kind not in kinds:
                 problems.append("inferred node <%s> typed %s, the referencing attributes infer %s" % (u, kind, sorted(kinds)))
+    per_name = collections.Counter(u for (u, _kind), n in got_inferred.items() for _ in range(n))
+    for u, n in per_name.items():
+        if n != 1:
+            # one node per undeclared endpoint, whatever the roles it is referenced in (a self-loop used(x, x) has one node x)
+            problems.append("%d inferred nodes for the one undeclared name <%s> (%s)" % (n, u, sorted(k for (u2, k) in got_inferred if u2 == u)))
     need_inferred = {u for u, tags in inferred.items() if any(w == "used" for w, _k in tags)}
     missing = need_inferred - {u for u, _k in got_inferred}
     if missing:
@@ -183,6 +192,8 @@ def judge(ctx, idx, case):
         ctx.count("graphs_with_parallel_edges")
     if any(a == b for a, b, _k in edges):
         ctx.count("graphs_with_self_loops")
+        if any(a == b and a not in declared_names(elements) for a, b, _k in edges):
+            ctx.count("graphs_with_self_loops_on_undeclared_names")
     # ---- inverse
     try:
         back = graph_to_prov(g)
